@@ -39,6 +39,8 @@ RECURSIVE FlatSeq(_)
 FlatSeq(qq) == IF qq = <<>> THEN <<>> ELSE Head(qq) \o FlatSeq(Tail(qq))
 RECURSIVE SetToSeq(_)           \* ascending order, for sets of naturals
 SetToSeq(S) == IF S = {} THEN <<>> ELSE LET m == MinOf(S) IN <<m>> \o SetToSeq(S \ {m})
+RECURSIVE SetToSeqAny(_)        \* some enumeration of a finite set
+SetToSeqAny(S) == IF S = {} THEN <<>> ELSE LET x == CHOOSE y \in S : TRUE IN <<x>> \o SetToSeqAny(S \ {x})
 RECURSIVE FoldSeq(_, _, _)      \* FoldSeq(Op, acc, q) left fold
 FoldSeq(Op(_, _), acc, q) == IF q = <<>> THEN acc ELSE FoldSeq(Op, Op(acc, Head(q)), Tail(q))
 
@@ -427,6 +429,7 @@ Apply(s, c) ==
              IF c.kind \in FirstClass /\ Exists(s, c.kind, c.x) /\ DataOf(s, c.kind, c.x).name # NoVal
              THEN DelName(s, c.kind, c.x) ELSE SetItem(s, c.kind, c.x, "name", "<None>")
       [] c.op = "set_attr"  -> SetAttr(s, c.kind, c.x, c.key, c.val)
+      [] c.op = "set_lower" -> SetAttr(s, c.kind, c.x, "lower", c.ival)
       [] c.op = "set_default" -> Ok([s EXCEPT !.nsDefault = c.val])
       [] c.op = "reset"     -> Ok(s)
 
